@@ -240,7 +240,12 @@ def run(ctx):
                     m = re.search(r'self\.(\w+)', recv)
                     if reads and m:
                         derived.add(m.group(1))
-        ctx.floor('settings-derived OnceLock caches of Context', len(derived), 2, rule='C26-D6')
+        ftypes = {f[0]: f[1] for f in cadt['variants'][0]['fields']}
+        other = sorted(d for d in derived if 'Resolver' not in ftypes.get(d, ''))
+        if other:
+            ctx.note('other settings-derived caches (not network related, not part of this property): %s' % other)
+        derived = set(d for d in derived if 'Resolver' in ftypes.get(d, ''))
+        ctx.floor('settings-derived resolver caches of Context', len(derived), 2, rule='C26-D6')
         ctx.note('settings-derived caches: %s' % sorted(derived))
         for mut in ('context::Context::set_settings', 'context::Context::with_settings', 'context::Context::settings_mut'):
             if not ctx.require(prog.has(mut), mut):
